@@ -216,7 +216,32 @@ def real_part(tier, pid, focus, verdict):
         nc = nested_cheat_scenario(root, bindir)
         results.append(nc)
         n_cheat += 1 if nc['cheated'] else 0
+    if focus == 'sched':
+        results.append(lockwait_batch_scenario(root, bindir))
     val = validate_runs(results, root)
+    # how often did several events become ready in one wake-up of a redo process (what the delayed select gate is for)
+    sel = {'select_wakeups': 0, 'wakeups_with_2_or_more_ready': 0, 'wakeups_with_token_and_child_exit': 0,
+           'targets_found_locked': 0, 'blocking_lock_waits': 0}
+    for r in results:
+        try:
+            with open(r['trace']) as f:
+                for ln in f:
+                    if '"ev":"Select"' in ln:
+                        try:
+                            rd = json.loads(ln).get('ready', [])
+                        except ValueError:
+                            continue
+                        sel['select_wakeups'] += 1
+                        if len(rd) >= 2:
+                            sel['wakeups_with_2_or_more_ready'] += 1
+                        if 0 in rd and any(x != 0 for x in rd):
+                            sel['wakeups_with_token_and_child_exit'] += 1
+                    elif '"ev":"Queued"' in ln:
+                        sel['targets_found_locked'] += 1
+                    elif '"ev":"LockWait"' in ln and '"fid":0' not in ln:
+                        sel['blocking_lock_waits'] += 1
+        except OSError:
+            pass
     n_cmds = sum(len(r['cmds']) for r in results)
     locks_cov = {}
     if focus == 'sched':
@@ -256,7 +281,7 @@ def real_part(tier, pid, focus, verdict):
     ok_dirs = [r['dir'] for r in results if not r['problems'] and not any(v[0] is r for v in val['violations'])]
     for dd in ok_dirs:
         shutil.rmtree(dd, ignore_errors=True)
-    return {**locks_cov, 'cheat_scenarios_that_cheated': n_cheat, 'real_builds': len(results), 'real_commands': n_cmds, 'trace_events': val['events'],
+    return {**locks_cov, **sel, 'cheat_scenarios_that_cheated': n_cheat, 'real_builds': len(results), 'real_commands': n_cmds, 'trace_events': val['events'],
             'trace_segments': val['segments'], 'traces_validated_against_impl': val['accepted'],
             'trace_invariants': TRACE_INV, 'sample_real': sample,
             'configs': {'inherited': sum(1 for s in scs if s['inherit']),
@@ -362,6 +387,64 @@ def nested_cheat_scenario(root, bindir):
     with open(os.path.join(d, 'scenario.json'), 'w') as f:
         json.dump({'scenario': res['sc'], 'files': files, 'commands': [r], 'problems': res['problems'],
                    'cheated': res['cheated'], 'nested': res['nested']}, f, indent=1)
+    return res
+
+
+class FixedDelayer(jobdrive.SelectDelayer):
+    """answers the `select` gate requests chosen by `when(fields)` after a fixed delay, the others at once"""
+
+    def __init__(self, gdir, delay, when):
+        super().__init__(gdir, random.Random(0))
+        self.delay_fn = lambda fields: delay if when(fields) else 0.0
+
+
+def lockwait_batch_scenario(root, bindir):
+    """the lock hand-over path with several finished jobs at once: invocation B is inside the script of t (and will ask
+    for u1..u5 later); invocation A runs `redo -j6 t u1..u5`: t is locked, the five u-jobs finish at once and, because A's
+    select() is delayed, are all reaped in one wake-up; A then has to wait for t's lock.  It must have recorded all five
+    results and released their locks before it blocks (else B, which needs them, and A wait for each other)."""
+    import subprocess
+    d = os.path.join(root, 'lockwait_batch')
+    shutil.rmtree(d, ignore_errors=True)
+    p = os.path.join(d, 'p')
+    os.makedirs(p)
+    us = ['u%d' % i for i in range(1, 6)]
+    files = {'t.do': 'sleep 2.6\nredo-ifchange %s\necho t\n' % ' '.join(us)}
+    for u in us:
+        files[u + '.do'] = 'sleep 0.6\necho %s\n' % u
+    for n, t in files.items():
+        with open(os.path.join(p, n), 'w') as f:
+            f.write(t)
+    trace = os.path.join(d, 'trace.ndjson')
+    open(trace, 'w').close()
+    envb = jobdrive.base_env(bindir, trace, {'REDO_LOG': '0'})
+    pb = subprocess.Popen(['redo', 't'], cwd=p, env=envb, stdin=subprocess.DEVNULL, stdout=subprocess.DEVNULL,
+                          stderr=subprocess.PIPE, start_new_session=True)
+    time.sleep(0.3)
+    # hold A's select() once all five jobs are running, until they have all exited
+    gate = FixedDelayer(os.path.join(d, 'gate'), 1.0, lambda f: f.get('jobs', 0) >= 5)
+    try:
+        r = jobdrive.run_build(bindir, p, trace, ['redo', '-j6', 't'] + us, timeout=25, gate=gate, extra_env={'REDO_LOG': '0'})
+    finally:
+        gate.close()
+    try:
+        pb.wait(timeout=30)
+        rb = {'argv': ['redo', 't'], 'rc': pb.returncode, 'stderr': pb.stderr.read().decode('utf-8', 'replace')[-1500:],
+              'timed_out': False, 'stdout': ''}
+    except subprocess.TimeoutExpired:
+        snap = jobdrive.process_snapshot(pb.pid)
+        try:
+            os.killpg(pb.pid, 9)
+        except ProcessLookupError:
+            pass
+        rb = {'argv': ['redo', 't'], 'rc': -9, 'stderr': 'did not terminate; snapshot:\n' + snap, 'timed_out': True, 'stdout': ''}
+    probs = ['redo -j6 t u1..u5: ' + x for x in jobdrive.classify(r, True)] + ['redo t: ' + x for x in jobdrive.classify(rb, True)]
+    txt = open(trace).read()
+    res = {'sc': {'id': 'lockwait_batch', 'j': 6, 'inherit': False}, 'dir': d, 'trace': trace, 'problems': probs, 'cmds': [r, rb],
+           'pj': files, 'queued': '"ev":"Queued"' in txt, 'waited': '"ev":"LockWait"' in txt}
+    with open(os.path.join(d, 'scenario.json'), 'w') as f:
+        json.dump({'scenario': res['sc'], 'files': files, 'commands': [r, rb], 'problems': probs,
+                   'queued': res['queued'], 'waited': res['waited']}, f, indent=1)
     return res
 
 
